@@ -26,9 +26,17 @@ class CellTranslator(AbstractTranslator):
             if isinstance(cell.value, str) and cell.value.find('=') == 0:
                 from excel2pycl.src.ast_builder import AstBuilder
                 from excel2pycl.src.lexer import Lexer
-                lexer = Lexer.parse(cell.value, in_cell=cell)
-                ast = AstBuilder.parse(lexer, in_cell=cell)
-                code = EntryPointTokenTranslator.translate(ast, excel, context)
+                from excel2pycl.src.exceptions import E2PyclParserException
+                uid = cell.uid
+                if uid in context._cells_in_progress:
+                    raise E2PyclParserException('Circular reference', cell)
+                context._cells_in_progress.add(uid)
+                try:
+                    lexer = Lexer.parse(cell.value, in_cell=cell)
+                    ast = AstBuilder.parse(lexer, in_cell=cell)
+                    code = EntryPointTokenTranslator.translate(ast, excel, context)
+                finally:
+                    context._cells_in_progress.discard(uid)
             else:
                 code = repr(cell.value) if cell.value is not None else 'self.EmptyCell()'
             context.set_cell(cell, code)
